@@ -20,7 +20,8 @@ class OversamplingWrapper(KDSubset):
                 # if class is not contained in dataset -> cant multiply sample
                 if class_counts[i] == 0:
                     continue
-                multiply_factor = int(np.floor(max_class_count / class_counts[i])) - 1
+                # integer division (int / tensor is evaluated in float32: 82 / 41 gives 1.9999999 -> factor 1 instead of 2)
+                multiply_factor = max_class_count // int(class_counts[i]) - 1
                 if multiply_factor > 0:
                     # get indices of samples with class to oversample
                     all_indices = torch.arange(len(dataset), dtype=torch.long)
